@@ -194,6 +194,12 @@ func runCheck(prop, tier string) int {
 				trusted["assumed contract: "+k] = true
 			}
 		}
+		for _, a := range vc.Axioms {
+			trusted["definitional axiom: "+a] = true
+		}
+		for _, a := range vc.CallSite {
+			trusted[a] = true
+		}
 	}
 	if nOb == 0 && len(vios) == 0 {
 		fmt.Fprintf(os.Stderr, "govc: no obligations generated for %s (vacuous check)\n", prop)
@@ -223,6 +229,8 @@ func runCheck(prop, tier string) int {
 	solveS := time.Since(tSolve).Seconds()
 
 	var samples []obSample
+	canaryGroup := map[string]bool{}
+	canaryBase := regexp.MustCompile(`@\d+$`)
 	obligations, discharged, canaries, canOK, covers, covOK := 0, 0, 0, 0, 0, 0
 	var known []string
 	var solverMs int64
@@ -232,12 +240,13 @@ func runCheck(prop, tier string) int {
 		ob := r.Ob
 		switch {
 		case ob.Canary:
-			canaries++
+			// a canary clause is checked at every return point; it must be refuted at one of them
+			base := canaryBase.ReplaceAllString(ob.Name, "")
+			if _, seen := canaryGroup[base]; !seen {
+				canaryGroup[base] = false
+			}
 			if r.OK {
-				canOK++
-			} else {
-				fmt.Fprintf(os.Stderr, "govc: canary %s was not refuted (%s): the encoding lost a fact\n", ob.Name, r.Status)
-				exit = 2
+				canaryGroup[base] = true
 			}
 			continue
 		case ob.Cover:
@@ -286,6 +295,15 @@ func runCheck(prop, tier string) int {
 			detail += fmt.Sprintf("; failing case %d of the split", r.Case)
 		}
 		vios = append(vios, vio{name: ob.Name, detail: detail, output: r.Output, res: r})
+	}
+	for base, ok := range canaryGroup {
+		canaries++
+		if ok {
+			canOK++
+		} else if len(vios) == 0 {
+			fmt.Fprintf(os.Stderr, "govc: canary %s was not refuted: the encoding lost a fact\n", base)
+			exit = 2
+		}
 	}
 	for _, fo := range findingObs {
 		ob, f := fo.ob, fo.f
